@@ -154,6 +154,11 @@ class SimThread:
                         k.crashes.append((self.name + ".atexit", repr(e)[:300], traceback.format_exc()))
             self.proc.exitcode = code
             k.log("exit", self.proc.name, code)
+            for h in list(k.handlers.get("proc_exit", ())):
+                try:
+                    h(self.proc)
+                except BaseException as e:  # noqa
+                    k.crashes.append((self.name + ".proc_exit", repr(e)[:300], traceback.format_exc()))
             for t in self.proc.threads:  # pool threads die with the process
                 if t is not self and t.state != "done":
                     t.killed = True
